@@ -87,11 +87,17 @@ def _get_all_inherited(t: Type) -> List[Type]:
 def _with_arguments_of(t: Type, r: Type) -> Type:
     "The base class `r` of `t` as written (`MyIter[U]`), given the arguments `t` has (`MyIter[Jet]`)"
     g_args = get_args(t)
-    if len(g_args) > 0 and get_origin(r) is not None:
-        # The arguments of `t` fill in the type variables of `t`'s own class, in the order the
-        # class declares them (which need not be the order the base class uses them in).
-        own_parameters = _class_parameters(get_origin(t))
-        mapping = {a.__name__: v for a, v in zip(own_parameters, g_args)}
+    free_in_r = getattr(r, "__parameters__", ())
+    if (len(g_args) > 0 or len(free_in_r) > 0) and get_origin(r) is not None:
+        if len(g_args) > 0:
+            # The arguments of `t` fill in the type variables of `t`'s own class, in the order
+            # the class declares them (which need not be the order the base class uses them in).
+            own_parameters = _class_parameters(get_origin(t))
+            mapping = {a.__name__: v for a, v in zip(own_parameters, g_args)}
+        else:
+            # A generic class written without its arguments (`-> MyIter`, `class Sub(MyIter)`):
+            # they can be anything - its type variables mean nothing outside the class.
+            mapping = {a.__name__: Any for a in free_in_r}
 
         r_base = get_origin(r)
         assert r_base is not None, "Internal error"
